@@ -29,3 +29,20 @@ mod testchild;
 
 #[cfg(test)]
 mod test;
+
+/// Verification-only re-exports of the private control-queue types (Kani only).
+#[cfg(kani)]
+#[allow(missing_docs, unreachable_pub)]
+pub mod verif {
+	pub use super::messages::ControlMessage;
+	pub use super::priority::{new as priority_new, Priority, PriorityReceiver, PrioritySender, Timer};
+
+	/// Build a ticket from its two flags.
+	#[must_use]
+	pub fn ticket(job_gone: crate::flag::Flag, control_done: crate::flag::Flag) -> super::Ticket {
+		super::Ticket {
+			job_gone,
+			control_done,
+		}
+	}
+}
